@@ -42,6 +42,44 @@ CHECKS = {
             "every context and every protocol level must have been exercised or the run reports broken machinery.",
             "No counterexample among the generated cases; the reference decoder and its spec tables (DESIGN.md Appendix A) are trusted. " + TRUST,
             "DESIGN.md §7 C10"),
+    "C15": ("exploration",
+            "exhaustive enumeration of the var-int domain (thorough: all 2^28 values) against a closed-form arithmetic model",
+            "Every value of 0..=268,435,455 (thorough; a dense-boundary + stride-97 sample in quick) is pushed through the library's "
+            "var-int writer, size function, both readers, total_len/header_len/remaining_len and, for boundary and sampled values, "
+            "the poll decoder's header state machine, and compared with a closed-form model; the first invalid values and all 9,330 "
+            "continuation-bit patterns of up to five bytes are checked for rejection / EOF classification. In the thorough tier the "
+            "finite domain is enumerated completely (evidence: exhaustive = true).",
+            "The arithmetic model (base-128 little endian, width thresholds 2^7, 2^14, 2^21, 2^28) is trusted. Quick tier is a sample. " + TRUST,
+            "DESIGN.md §7 C15"),
+    "C16": ("exploration",
+            "bounded-exhaustive enumeration of strings against a split-based reference predicate (MQTT 4.7/4.8)",
+            "All strings up to a length bound over an 8-character alphabet covering every class the validator distinguishes, alone "
+            "and behind 11 prefix shapes, and structured strings around 65,535 bytes, are given to TopicFilter::is_invalid, the "
+            "constructor and the v3/v5 SUBSCRIBE/UNSUBSCRIBE decoders; all must agree with a predicate written from the "
+            "specification by splitting on '/'. The stated bounded space is enumerated completely.",
+            "Exhaustive only inside the bounded space (length <= 6 quick, <= 8 / 7 thorough); longer strings are sampled. " + TRUST,
+            "DESIGN.md §7 C16"),
+    "C17": ("exploration",
+            "bounded-exhaustive enumeration of valid filters; accessor results vs harness-computed split; algebraic laws of Eq/Ord/Hash",
+            "Every valid filter of C16's space: share-name/filter accessors must return the unique split computed by the harness, "
+            "text round-trips, and equality, ordering (antisymmetric, transitive, Equal iff same text, partial_cmp = cmp) and hashing "
+            "depend only on the text, including values built from separate allocations and by decoding a SUBSCRIBE.",
+            "Pairs/triples are neighbours and pseudo-random partners inside enumeration blocks, not all pairs. " + TRUST,
+            "DESIGN.md §7 C17"),
+    "C18": ("exploration",
+            "bounded-exhaustive enumeration of strings against the three-condition rule; six packet paths",
+            "All strings up to a length bound over a 9-character alphabet, alone and behind '$share/', '$SYS/' and near-miss "
+            "prefixes, and strings around 65,535 bytes: TopicName::is_invalid, the constructor (read-back, is_shared, is_sys) and "
+            "the PUBLISH / will / response-topic decoders of both families must agree with: <= 65,535 bytes and no '+', '#', U+0000.",
+            "Exhaustive only inside the bounded space (length <= 6 quick, <= 7 thorough). " + TRUST,
+            "DESIGN.md §7 C18"),
+    "C19": ("exploration",
+            "exhaustive enumeration of all (identifier, amount) pairs against a cycle model",
+            "All 65,535 x 65,536 pairs are evaluated in both tiers (about 2 s on 16 cores) against stepping around the cycle "
+            "1..=65535 in i64 arithmetic: result never 0, add/sub exact, mutual inverses, in-place operators equal the pure ones, "
+            "construction fails exactly for 0. The finite domain is enumerated completely (evidence: exhaustive = true).",
+            "The cycle model is trusted; the check runs in a build with overflow checks so a wrapping bug also shows as a panic.",
+            "DESIGN.md §7 C19"),
 }
 
 NOT_YET = "check not built yet in this round (machinery under construction; see DESIGN.md for the plan)"
